@@ -49,14 +49,25 @@ def generate(rng, tier):
         lines = ['gb.newloop 0 %d 1 %d' % (typ, ramc)] + run_lines(0, sched, frames)
         lines += ['gb.newloop 1 %d 1 %d' % (typ, ramc)] + run_lines(1, sched, frames)
         cases.append(('loop%d' % i, lines))
-    info = dict(input_distribution=dict(roms=len(rl), frames=frames),
+    # pictures with many overlapping opaque objects: the frame must not depend on anything but the machine state
+    nscene = 3 if tier == 'quick' else 30
+    for i in range(nscene):
+        import random as _r
+        seed = rng.randrange(1 << 30)
+        lines = []
+        for inst in (0, 1):
+            lines += ['gb.newloop %d 0 0 0' % inst] + sysgen.scene_lines(_r.Random(seed), inst)
+            lines += ['gb.frames %d 2' % inst, 'gb.pix %d' % inst, 'gb.frames %d 1' % inst, 'gb.pix %d' % inst,
+                      'gb.obs %d' % inst, 'gb.rr %d 65024 65183' % inst]
+        cases.append(('scene%d' % i, lines))
+    info = dict(input_distribution=dict(roms=len(rl), frames=frames, object_scenes=nscene),
                 samples=[dict(case=cases[0][0], script=cases[0][1])])
     generate.cases = cases
     return cases, info
 
 
 def nontrivial(cid, lines, impl):
-    if impl and len(impl) >= 12:
+    if impl and len(impl) >= 8:
         return cid
     return None
 
